@@ -14,6 +14,8 @@ CONSTANTS
   NaNTest = "value"
   StrideOff = 0
   ReorderMode = "bylayout"
+  ZeroGuard = "guarded"
+  Gens = {1,2,3}
   Ordered = TRUE
   Export = TRUE
 INVARIANT EachSampleOnce
